@@ -141,6 +141,51 @@ claim("C15", "model_checking",
       "TLA+ spec + TLC safety/liveness checking; schedule replay with parked-goroutine detection and TLC trace validation of recorded histories",
       "DESIGN.md 4/C15", "pipe")
 
+claim("C04", "model_checking",
+      "specs/Replay/SlidingWindow.tla (the ring made explicit next to a ghost set, sizes as a state variable, block width and ring length read "
+      "from the compiled code) and specs/Replay/UdpSession.tla (lazy filter, current/old server session, one-change-per-minute guard, relay "
+      "eviction at MinNATTimeout, packets good/forged/header-flipped/bad-type/foreign-csid) are checked by TLC for Exact/Refinement/AddEquiv and "
+      "DeliverOnce/FreshAccepted/BadPacketsInert/OneChangePerMinute/OldSessionStillFiltered. Graph covers and simulated walks are replayed into "
+      "the real SlidingWindowFilter at bases 0, 2^32 and just below 2^64; every alphabet sequence to depth 4 (quick) / 6 (thorough) is enumerated on "
+      "the real filter against the ghost-set oracle; session behaviours are replayed inside testing/synctest against the real UDPServer/UDPClient "
+      "unpackers with packets made (and re-sealed) by the real packers, each behaviour twice (with and without the bad deliveries).",
+      "TLC depth 6 only for sizes 1,2,63,64 (depth 5 for 65..1000; depth 6 for all sizes is enumerated on the real filter); ids near 2^64 by "
+      "translation; the one-minute guard is a literal in the code and a spec constant; relay eviction is played by the driver.",
+      "TLA+ specs + TLC exhaustive model checking; graph replay and bounded-exhaustive enumeration on the real filter and unpackers under a virtual clock",
+      "DESIGN.md 4/C04", "udpreplay")
+claim("C14", "model_checking",
+      "specs/Stats/Collector.tla has one action per atomic add / swap / lock section of stats/collector.go and the api/ssm projections; TLC checks "
+      "Conservation/NoInvention/Attribution/TotalIsSum/ApiUserExact on all interleavings of concurrent collects and snapshots (the user-endpoint "
+      "defect variant must violate ApiUserExact). Concurrent real calls (direct and through the in-process api/ssm handlers) are recorded as "
+      "call/return traces and validated by TLC per (bucket, figure) against TraceCollector.tla (a corrupted history must be rejected); sequential "
+      "histories of the state graph are replayed through the real handlers; long runs with back-to-back resets check quiescent conservation.",
+      "The collector has no gates: real interleavings are whatever the scheduler produces (all interleavings are covered on the model only); trace "
+      "amounts stay below 2^31; the relays' Collect* call sites are C11/C13's.",
+      "TLA+ spec + TLC exhaustive model checking; TLC trace validation of recorded concurrent histories; sequential replay through the real API handlers",
+      "DESIGN.md 4/C14", "collector")
+claim("C18", "exploration",
+      "specs/Config/Config.tla defines Valid (exactly the named invariants), Effective (documented defaults, omitted = empty = default), the legacy "
+      "field migration, and a state machine with one action per section of Config.Manager through Start/Traffic/Stop; the points where the code "
+      "could differ from the documentation are constants probed from the compiled code. TLC checks AcceptedIsValid/DefaultsAsDocumented/NoCrash/"
+      "OmittedIsEmpty/MigrationPreserves and enumerates the configuration lattice. Each case is rendered to JSON, loaded as cmd/shadowsocks-go "
+      "does (jsoncfg.Load, Config.Manager) in a child process, its effective settings read off the real manager, and accepted configurations are "
+      "run on loopback under a smoke script (TCP connection, UDP round trip, unauthenticated-connection probe per listener).",
+      "GeoIP, TLS and tproxy/redirect traffic are excluded; some effective settings are read by reflection on unexported fields (unreadable = note); "
+      "32 dimensions applied as singles, pairs and seeded 3-5-fold combinations, not the full product.",
+      "TLA+ validity/defaults spec + TLC enumeration of model-derived configurations through the real loader and running services in child processes",
+      "DESIGN.md 4/C18", "config")
+claim("C19", "model_checking",
+      "specs/Groups/ClientGroup.tla models round-robin as call / atomic add / return, random selection, and the three probing policies with the "
+      "worker pool, per-probe ring writes, the strict-improvement scan in configuration order, mid-round cancellation; TLC checks TicketsDistinct/"
+      "NoneSkipped/SelectedIsArgBest/ScanIsArgBest/AlwaysMember/StableDuringRound/ServesPreviousWhileProbing with scaled rings exhaustively and "
+      "with the real 64/32 rings (read from the code) on bounded-round graphs, simulations and scripted histories longer than the retention. "
+      "Behaviours are replayed inside testing/synctest on groups built by the real AddClientGroup over fake members answering the real probes "
+      "after scripted virtual latencies; round-robin under 8 concurrent callers is trace-validated (hidden atomic adds inferred) and counted.",
+      "Ring wrap-around with the real sizes is covered by scripted and simulated histories, not exhaustively; a UDP member can only fail by a "
+      "NewSession error; rounds longer than the interval are not modelled; the 63-bit counter wrap is assumed away.",
+      "TLA+ spec + TLC model checking; replay under a virtual clock on real client groups; TLC trace validation of concurrent round-robin",
+      "DESIGN.md 4/C19", "clientgroup")
+
 NA = {}
 
 def main():
